@@ -144,27 +144,47 @@ impl GraphSnapshot for StorageSnapshot {
         // Use storage-level PropertyValue for encoding
         let storage_value = convert_property_to_storage(value.clone());
 
-        // Construct prefix: [index_id (4B)] [encoded_value]
-        let mut prefix = Vec::new();
-        prefix.extend_from_slice(&def.id.to_be_bytes());
-        prefix.extend_from_slice(&encode_ordered_value(&storage_value));
+        // `1 = 1.0` in Cypher, but integers and floats are encoded under different tags:
+        // probe the numerically equal value of the other kind as well (only when the
+        // conversion is exact).
+        let mut probes = vec![storage_value.clone()];
+        match storage_value {
+            crate::property::PropertyValue::Int(i) => {
+                let f = i as f64;
+                if (-9.2e18..=9.2e18).contains(&f) && (f as i128) == (i as i128) {
+                    probes.push(crate::property::PropertyValue::Float(f));
+                }
+            }
+            crate::property::PropertyValue::Float(f) => {
+                if f.fract() == 0.0 && (-9.2e18..=9.2e18).contains(&f) {
+                    probes.push(crate::property::PropertyValue::Int(f as i64));
+                }
+            }
+            _ => {}
+        }
 
         let pager = self.pager.read().unwrap();
-        let mut cursor = tree.cursor_lower_bound(&pager, &prefix).ok()?;
-
         let mut results = Vec::new();
-        while let Ok(valid) = cursor.is_valid() {
-            if !valid {
-                break;
-            }
-            let key = cursor.key().ok()?;
-            if !key.starts_with(&prefix) {
-                break;
-            }
-            if let Ok(payload) = cursor.payload() {
-                results.push(payload as u32);
-                if !cursor.advance().ok()? {
+        for probe in &probes {
+            // Construct prefix: [index_id (4B)] [encoded_value]
+            let mut prefix = Vec::new();
+            prefix.extend_from_slice(&def.id.to_be_bytes());
+            prefix.extend_from_slice(&encode_ordered_value(probe));
+
+            let mut cursor = tree.cursor_lower_bound(&pager, &prefix).ok()?;
+            while let Ok(valid) = cursor.is_valid() {
+                if !valid {
                     break;
+                }
+                let key = cursor.key().ok()?;
+                if !key.starts_with(&prefix) {
+                    break;
+                }
+                if let Ok(payload) = cursor.payload() {
+                    results.push(payload as u32);
+                    if !cursor.advance().ok()? {
+                        break;
+                    }
                 }
             }
         }
